@@ -16,6 +16,15 @@ areas = {
  'state2': ("crates/trippy-core/src/state.rs (State, Hop, FlowState and update_from_round / update_lowest_ttl / update_round) and crates/trippy-core/src/flows.rs (FlowRegistry, Flow::check / merge)", "per-hop statistics aggregation and the flow registry"),
  'ck2': ("crates/trippy-packet/src/checksum.rs, crates/trippy-packet/src/icmp_extension.rs, crates/trippy-packet/src/icmpv4.rs / icmpv6.rs (the payload / extension splitting code of TimeExceeded / DestinationUnreachable packets)", "the Internet checksum functions and the ICMP extension parsing"),
 }
+areas3 = {
+ 'items3': ("crates/trippy-tui/src/config/theme.rs (TuiTheme, its Default impl, the big `impl From<(HashMap<TuiThemeItem, TuiColor>, ConfigThemeColors)> for TuiTheme`, TuiThemeItem, TuiColor parsing) and crates/trippy-tui/src/config/binding.rs (TuiBindings, its Default impl, the big `impl From<(HashMap<TuiCommandItem, TuiKeyBinding>, ConfigBindings)> for TuiBindings`, TuiKeyBinding parsing / Display, TuiCommandItem)", "the theme-colour and key-binding tables (command line over config file over default for every item)"),
+ 'file3': ("crates/trippy-tui/src/config/file.rs (read_default_config_file, read_config_file, read_files, read_file, the Config* section structs and their Default impls), crates/trippy-tui/src/config/cmd.rs (the clap argument definitions and the value parsers), crates/trippy-privilege/src/lib.rs (Privilege: discover, acquire_privileges, check_has_privileges, check_needs_privileges)", "how the configuration file is located and read, the command-line argument parsers, and privilege discovery"),
+ 'rep3': ("crates/trippy-tui/src/report.rs and crates/trippy-tui/src/report/*.rs (csv.rs, json.rs, table.rs, dot.rs, flows.rs, silent.rs, stream.rs, types.rs)", "the report generators (--mode csv / json / pretty / markdown / dot / flows / silent / stream)"),
+ 'plat3': ("crates/trippy-core/src/net/platform/unix.rs (SocketImpl: the socket constructors, bind, set_*, connect, send_to, is_readable, is_writable, recv_from, read, take_error, icmp_error_info; the address lookup helpers), crates/trippy-core/src/net/socket.rs, crates/trippy-core/src/net/source.rs, crates/trippy-core/src/error.rs (IoError, ErrorKind and the `From<&io::Error>` conversion)", "the Linux / Unix platform socket layer, source-address discovery and the I/O error types"),
+ 'geo3': ("crates/trippy-tui/src/geoip.rs (GeoIpCity and its name / location methods, the `From<(maxminddb::geoip2::City, &str)>` conversion, GeoIpLookup), crates/trippy-tui/src/frontend/render/world.rs (the map: grouping hops into pins, the info panel), crates/trippy-packet/src/lib.rs (IpProtocol and its conversions, fmt_payload) and the six public wrapper functions at the top of crates/trippy-packet/src/checksum.rs", "GeoIP lookups and the world map, the IpProtocol enum and the public checksum entry points"),
+}
+if len(sys.argv) > 2 and sys.argv[2] == 'set3':
+    areas = areas3
 for a, (files, what) in areas.items():
     wt = f'{W}/{a}'
     if not os.path.exists(wt):
